@@ -14,7 +14,7 @@ LEVEL = 'other'
 SCOPE = ('actuate_door, actuate_box, pickndrop, move/turn alone and the shipped chains, one step from a lazily symbolic state; '
          'every door/box the step read or wrote is compared with its pre-state, the faced cell is always inspected')
 BOUNDS = {
-    'quick': dict(shapes='all HxW with 1<=H,W<=3 except 1x1', alphabet='all kinds, 3 door statuses, 3 colours (45 objects) so that key/door colour '
+    'quick': dict(subclasses='user-defined subclasses of Door and Box in a 10-object alphabet on 1x2 and 2x2', shapes='all HxW with 1<=H,W<=3 except 1x1', alphabet='all kinds, 3 door statuses, 3 colours (45 objects) so that key/door colour '
                   'match and mismatch both occur', held='none or any object (keys of every colour included)', poses='every cell x 4 headings', actions='all 8'),
     'thorough': dict(shapes='all HxW with 1<=H,W<=4 except 1x1', alphabet='full: 5 colours (all 5x5 key/door colour pairs)', held='none or any object',
                      poses='every cell x 4 headings', actions='all 8'),
